@@ -204,6 +204,10 @@ def gen_cases(tier, seed):
         cases.append({"id": "protocol-%s" % b, "sig": ["protocol", b], "kind": "protocol", "binding": b, "trunc": 10 if tier == "quick" else 100000})
     cases.append({"id": "metadata", "sig": ["metadata"], "kind": "metadata", "trunc": 10 if tier == "quick" else 100000})
     cases.append({"id": "signed-with-doctype", "sig": ["signed-with-doctype"], "kind": "signed"})
+    # hostile documents delivered by one thread while other threads of the same process handle ordinary traffic (SOAP requests, POST
+    # responses, metadata loads) - yields injected inside the library
+    for k in range(2 if tier == "quick" else 12):
+        cases.append({"id": "threads-%d" % k, "sig": ["threads", k], "kind": "threads", "k": k, "rounds": 20 if tier == "quick" else 100})
     if tier == "thorough" and not os.environ.get("VERIF_C11_TRACED"):
         # the repository's own test suite (with the driver on its PATH, so that the signature tests run too) as one more workload for the
         # parser-construction monitor: whatever the tests drive, a parser built inside the package is the defused one
@@ -494,6 +498,8 @@ def run_case(case, ctx):
         return run_traced(case, ctx)
     elif kind == "suite":
         return run_suite(case, ctx)
+    elif kind == "threads":
+        return run_threads_case(case, ctx)
     elif kind == "signed":
         # a validly signed response with a DOCTYPE (no entity), a PI and a comment in front: may be accepted, nothing may be fetched,
         # and this is what reaches the parse inside the signature check
@@ -581,6 +587,75 @@ def run_traced(case, ctx):
         uniq.setdefault(v["key"] + v["what"][:120], v)
     return {"outcome": "violations" if viol else "held", "nontrivial": bool(sigs), "violations": list(uniq.values())[:10], "counters": dict(counters), "sigs": sigs,
             "evals": counters["traced_runs"]}
+
+
+def run_threads_case(case, ctx):
+    from vlib import interleave, fed
+    from saml2_tophat import samlp, md, BINDING_SOAP, BINDING_HTTP_POST
+    import saml2_tophat
+    sp, idp = fed.pair()
+    scratch = ctx.scratch
+    rid, req = sp.create_authn_request(fed.SSO_POST, binding=BINDING_HTTP_POST)
+    reqxml = "%s" % req
+    from saml2_tophat.saml import NameID, NAMEID_FORMAT_PERSISTENT
+    nid = NameID(format=NAMEID_FORMAT_PERSISTENT, text="subject-1", sp_name_qualifier=fed.SP_EID, name_qualifier=fed.IDP_EID)
+    lid, lreq = sp.create_logout_request(fed.SLO_IDP + "/soap", fed.IDP_EID, name_id=nid, reason="user")
+    body_ = "%s" % lreq
+    body_ = body_[body_.index("?>") + 2:] if body_.startswith("<?xml") else body_
+    soap_logout = '<ns0:Envelope xmlns:ns0="http://schemas.xmlsoap.org/soap/envelope/"><ns0:Body>%s</ns0:Body></ns0:Envelope>' % body_
+    respxml = fed.issue(idp, {"givenName": ["Ann"]}, sign_response=True)
+    mdxml = fed.metadata_of(fed.idp_conf())
+    hostile_docs = [(k, dta) for k, dta in hostile(reqxml, scratch) if is_entity_kind(k)]
+    hostile_md = [(k, dta) for k, dta in hostile(mdxml, scratch) if is_entity_kind(k)]
+    seen = {"refused": 0, "accepted": []}
+
+    def traffic_soap():
+        for _ in range(case["rounds"]):
+            try:
+                idp.parse_logout_request(soap_logout, BINDING_SOAP)
+            except Exception:
+                pass
+
+    def traffic_post():
+        for _ in range(case["rounds"] // 2):
+            fed.deliver(sp, respxml, {"id-req-1": "/"})
+
+    def attacker():
+        for _ in range(case["rounds"]):
+            for k, dta in hostile_docs:
+                for ep, f in (("samlp.authn_request_from_string", samlp.authn_request_from_string),
+                              ("create_class_from_xml_string", lambda x: saml2_tophat.create_class_from_xml_string(samlp.AuthnRequest, x)),
+                              ("server.parse_authn_request[post]", lambda x: idp.parse_authn_request(base64.b64encode(x).decode(), BINDING_HTTP_POST))):
+                    try:
+                        r = f(dta)
+                        if r is not None:
+                            seen["accepted"].append((ep, k))
+                        else:
+                            seen["refused"] += 1
+                    except Exception:
+                        seen["refused"] += 1
+            for k, dta in hostile_md:
+                try:
+                    r = md.entity_descriptor_from_string(dta)
+                    if r is not None:
+                        seen["accepted"].append(("md.entity_descriptor_from_string", k))
+                    else:
+                        seen["refused"] += 1
+                except Exception:
+                    seen["refused"] += 1
+    with parsermon.watch() as w:
+        res, errs, stats = interleave.run_threads([traffic_soap, traffic_post, attacker, traffic_soap], "%s/%s" % (ctx.seed, case["id"]), p=0.03, timeout=900)
+    viol = []
+    if seen["accepted"]:
+        viol.append({"key": "C11/entity-declaring-document-accepted", "what": "while other threads handled SOAP and POST traffic, %d entity-declaring document(s) were parsed into "
+                     "objects, e.g. %r" % (len(seen["accepted"]), seen["accepted"][:3])})
+    bad = [e for e in w.parsers if e.get("site") and not e.get("defused")]
+    if bad:
+        viol.append({"key": "C11/non-defused-parser-on-inbound-data", "what": "under concurrency %d parser(s) without the entity guards were built inside the package, e.g. at %s via %s" % (
+            len(bad), bad[0]["site"], bad[0]["api"])})
+    return {"outcome": "violations" if viol else "held", "nontrivial": seen["refused"] > 0, "violations": viol,
+            "counters": {"threads_hostile_refused": seen["refused"], "yields_injected": stats["yields_injected"], "parser_constructions_in_package": len([e for e in w.parsers if e.get("site")])},
+            "sigs": [["threads", case["k"]]], "evals": seen["refused"] + len(seen["accepted"]), "reached": sorted(set(e["site"] for e in w.parsers if e.get("site")))}
 
 
 def run_suite(case, ctx):
